@@ -122,10 +122,11 @@ def covering_sample(hs, count, rng, precs=("d", "s", "z", "c"), scales=(None,), 
 
 
 def run_histories(ck, alphabet, depth, count, rng, precs=("d",), threads=(1, 2, 4), nmax=24, pert=None,
-                  validate_pipe=True, variant="verif", hist_filter=None, script_kw=None, extra_judge=None, enum_timeout=600):
+                  validate_pipe=True, variant="verif", hist_filter=None, script_kw=None, extra_judge=None, enum_timeout=600, simulate=None):
     wd = os.path.join(ck.dir, "api")
     os.makedirs(wd, exist_ok=True)
-    hs, r = api.enumerate_histories(wd, depth, alphabet, name=ck.pid, timeout=enum_timeout)
+    # depth >= 5: the complete enumeration is millions of histories (tens of GB once parsed): a large random sample of TLC behaviours instead
+    hs, r = api.enumerate_histories(wd, depth, alphabet, name=ck.pid, timeout=enum_timeout, simulate=simulate or (4000 if depth >= 5 else None))
     ck.model(r["distinct"], r["generated"])
     hs = [h for h in hs if h and h[0]["call"] == "mat" and (hist_filter is None or hist_filter(h))]
     ck.notes["histories_enumerated"] = len(hs)
